@@ -34,9 +34,10 @@ ASSUME = [
     "identifier strings are ASCII printable without whitespace; ids and labels of the theorems consist of word characters",
     "current revisions handed to the relative forms are full revision ids",
 ]
-RULE = ("8 fixed histories (design-time witnesses, label-propagation shapes) + a 13-deep linear history with offsets of "
+RULE = ("10 fixed histories (design-time witnesses, all-digit ids 0/0000/0001, label-propagation shapes) + a 13-deep linear history with offsets of "
         "one to three digits (id+10, label@id+11, -12, +25 ...) + seeded random histories (quick 90, thorough 1400) "
-        "of 1-5 revisions (thorough: up to 6) whose ids are strings of length 2-6 over {a,b,c} built to "
+        "of 1-5 revisions (thorough: up to 6) whose ids are strings of length 2-6 over {a,b,c} (every fifth history: over {0,1,a} "
+        "with the all-digit ids 0, 00, 0000, 0001, 1, 12, 007, 10 mixed in) built to "
         "collide on prefixes (ids that are prefixes of other ids and of labels), 0-2 branch labels (sometimes colliding with an id "
         "or each other -> load error), random load order, 0-2 down revisions, occasional depends_on; for each history EVERY "
         "identifier string of the grammar {id, every proper prefix of every id and label, label, head, heads, base, x@y with x in "
@@ -61,7 +62,8 @@ LEVEL_NOTE = ("Trusted: Coq kernel+vm_compute, the hand-written model (tied by a
 
 ALPHA = "abc"
 BATCH = 16
-JUNK = ["", "@", "+", "-", "+1x", "a+", "a-b", "a@b@c", "a@b@c+1", "@head", "head@", "heads@head", "head@head", "base@base",
+JUNK = ["0", "00", "0000", "0001", "7", "12", "007", "0@head", "12@0", "0+1", "0-1", "12-0", "+00", "-00", "a@0", "a@-0", "a@+0",
+        "", "@", "+", "-", "+1x", "a+", "a-b", "a@b@c", "a@b@c+1", "@head", "head@", "heads@head", "head@head", "base@base",
         "12", "-0", "+0", "a.b+1", "a b", "head-1", "head+1", "base+1", "base-1", "heads-1", "1_0", "-1_0", "zzzz", "zzzz@head",
         "zzzz+1", "head@heads", "a@", "@a", "a@+", "a@-1x", "a@head+1", "a@base+1"]
 
@@ -74,7 +76,7 @@ def S(s):
 
 # ----------------------------------------------------------------------------- generator
 
-def rand_id(rnd, pool):
+def rand_id(rnd, pool, alpha=ALPHA):
     """a string of length 2-6 over ALPHA, biased to share prefixes with the strings already in pool"""
     for _ in range(50):
         if pool and rnd.random() < 0.75:
@@ -83,22 +85,27 @@ def rand_id(rnd, pool):
             if k < 0.35 and len(b) > 2:
                 s = b[:rnd.randint(2, len(b) - 1)]
             elif k < 0.75 and len(b) < 6:
-                s = b + "".join(rnd.choice(ALPHA) for _ in range(rnd.randint(1, 6 - len(b))))
+                s = b + "".join(rnd.choice(alpha) for _ in range(rnd.randint(1, 6 - len(b))))
             else:
                 j = rnd.randrange(len(b))
-                s = b[:j] + rnd.choice(ALPHA) + b[j + 1:]
+                s = b[:j] + rnd.choice(alpha) + b[j + 1:]
         else:
-            s = "".join(rnd.choice(ALPHA) for _ in range(rnd.randint(2, 6)))
+            s = "".join(rnd.choice(alpha) for _ in range(rnd.randint(2, 6)))
         if 2 <= len(s) <= 6:
             return s
     return "abca"
 
 
-def rand_history(rnd, nmax, long_ids=False):
+DIGIT_IDS = ["0", "00", "0000", "0001", "1", "12", "007", "10"]
+
+
+def rand_history(rnd, nmax, long_ids=False, alpha=ALPHA):
     n = rnd.randint(1, nmax)
     ids = []
     while len(ids) < n:
-        s = rand_id(rnd, ids)
+        s = rand_id(rnd, ids, alpha)
+        if alpha != ALPHA and not long_ids and rnd.random() < 0.45:
+            s = rnd.choice(DIGIT_IDS)      # ids that int() accepts: zero, leading zeros, positive integers
         if long_ids and len(s) < 4:
             s = (s + "abca")[:rnd.randint(4, 6)]
         if s not in ids:
@@ -120,7 +127,7 @@ def rand_history(rnd, nmax, long_ids=False):
     pool = list(ids)
     used = []
     for _ in range(nlab):
-        lab = rand_id(rnd, pool + used)
+        lab = rand_id(rnd, pool + used, alpha)
         if long_ids and len(lab) < 4:
             lab = (lab + "cbac")[:rnd.randint(4, 6)]
         collide = rnd.random() < 0.04
@@ -249,6 +256,10 @@ FIXED = [
     [{"id": "r0a0", "down": [], "deps": [], "labels": []}, {"id": "r1a1", "down": ["r0a0"], "deps": [], "labels": []},
      {"id": "r2a2", "down": ["r1a1"], "deps": [], "labels": ["lab0"]}],
     [],
+    # ids that are integers for int(): they are ids, never "relative" (only a NEGATIVE integer is)
+    [{"id": "0", "down": [], "deps": [], "labels": []}, {"id": "0000", "down": ["0"], "deps": [], "labels": ["12"]},
+     {"id": "0001", "down": ["0000"], "deps": [], "labels": []}, {"id": "1a2b", "down": ["0"], "deps": [], "labels": []}],
+    [{"id": "000", "down": [], "deps": [], "labels": ["lab0"]}],
     # label propagation shapes: the upward walk starts from the LAST-YIELDED DESCENDANT, so a branch point or a merge
     # point between the labelled revision and that descendant keeps the label away from the ancestors
     [{"id": "paaa", "down": [], "deps": [], "labels": []}, {"id": "raaa", "down": ["paaa"], "deps": [], "labels": ["lbl1"]},
@@ -300,7 +311,8 @@ def generate(tier, seed):
     ngraphs = 90 if tier == "quick" else 1400
     for k in range(ngraphs):
         nmax = 5 if tier == "quick" or k % 4 else 6
-        revs = rand_history(rnd, nmax, long_ids=(k % 3 == 0))
+        # every fifth history has ids over {0,1,a}: all-digit ids (0, 0000, 0001, 12 ...) mixed with hex-like ones
+        revs = rand_history(rnd, nmax, long_ids=(k % 3 == 0), alpha=("01a" if k % 5 == 4 else ALPHA))
         yield from cases_for(revs, rnd)
 
 
